@@ -656,7 +656,7 @@ def zone_rows(t, ddx, ddy, ny, nx, mx, my):
             if mx + 1.5 <= x[i] <= nx - 1 - mx - 1.5 and my + 1.5 <= y[i] <= ny - 1 - my - 1.5}
 
 
-def compare_finder(R, api, t0, t1, T, ny, nx, margins, detail, srcs=()):
+def compare_finder(R, api, t0, t1, T, ny, nx, margins, detail, srcs=(), injected=()):
     mx, my = margins
     # sanity (keeps the relation from being vacuous when the reported positions are nonsense, e.g. cutout-relative):
     # at least one of the bright blobs of the scene is reported within 2.5 pixels, in both frames
@@ -682,6 +682,24 @@ def compare_finder(R, api, t0, t1, T, ny, nx, margins, detail, srcs=()):
     det = lambda: dict(detail, margins_xy=(mx, my), frame=(ny, nx),
                        original=sorted((round(float(a), 3), round(float(b), 3)) for a, b in all0.values()),
                        canvas_minus_offset=sorted((round(float(a), 3), round(float(b), 3)) for a, b in all1.values()))
+    # injected compact stars: the peak pixel is known (the rounded position), so the footprint rule can be applied
+    # INCLUSIVELY (kernel footprint touching the first / last row or column): reported in one frame iff in the other
+    for (x0, y0) in injected:
+        px, py = int(math.floor(x0 + 0.5)), int(math.floor(y0 + 0.5))
+        if not (mx <= px <= nx - 1 - mx and my <= py <= ny - 1 - my):
+            R.skip(api, 'injected-star-footprint-not-inside-frame')
+            continue
+        n0 = [q for q in all0.values() if math.hypot(q[0] - x0, q[1] - y0) <= 1.0]
+        n1 = [q for q in all1.values() if math.hypot(q[0] - x0, q[1] - y0) <= 1.0]
+        touching = px in (mx, nx - 1 - mx) or py in (my, ny - 1 - my)
+        if touching:
+            R.skip(api, '(not skipped) injected star whose kernel footprint touches an edge')
+        R.ok(api, 'a star whose kernel footprint lies inside (or touches the edge of) the original frame is reported '
+                  'in both frames or in none',
+             bool(n0) == bool(n1) and (not n0 or find(n0[0], {0: n1[0]}) is not None),
+             lambda: dict(det(), star=(x0, y0), peak_pixel=(px, py), touching=touching,
+                          reported_original=[(float(a), float(b)) for a, b in n0],
+                          reported_canvas_minus_offset=[(float(a), float(b)) for a, b in n1]))
     pairs = []
     miss0 = [p for i, p in z0.items() if find(p, all1) is None]
     miss1 = [p for i, p in z1.items() if find(p, all0) is None]
@@ -717,9 +735,10 @@ def inject_band_stars(d, srcs, grng, xr, yr, sx, sy, theta):
     d = d.copy()
     yy, xx = np.mgrid[0:ny, 0:nx]
     placed = [(s['x0'], s['y0']) for s in srcs]
-    lo, hi = min(xr, yr) + 2, max(xr, yr) + 1
+    lo, hi = min(xr, yr), max(xr, yr) + 1       # lo: the kernel footprint TOUCHES the first / last row or column
+    injected = []
     for _ in range(4):
-        dist = grng.randint(lo, max(lo, hi))
+        dist = grng.choice([lo, lo, lo + 1, grng.randint(lo, max(lo, hi))])
         if yr <= xr:       # short axis = y: top / bottom bands
             y0 = grng.choice([dist, ny - 1 - dist]) + grng.uniform(-0.2, 0.2)
             x0 = grng.uniform(xr + 4, nx - 1 - xr - 4)
@@ -729,11 +748,12 @@ def inject_band_stars(d, srcs, grng, xr, yr, sx, sy, theta):
         if any(math.hypot(x0 - a, y0 - b) < 12 for a, b in placed):
             continue
         placed.append((x0, y0))
+        injected.append((x0, y0))
         c, s_ = math.cos(theta), math.sin(theta)
         u = (xx - x0) * c + (yy - y0) * s_
         v = -(xx - x0) * s_ + (yy - y0) * c
-        d += grng.uniform(60, 150) * np.exp(-0.5 * ((u / sx) ** 2 + (v / sy) ** 2))
-    return d, [{'x0': a, 'y0': b} for a, b in placed]
+        d += grng.uniform(90, 160) * np.exp(-0.5 * ((u / sx) ** 2 + (v / sy) ** 2))
+    return d, [{'x0': a, 'y0': b} for a, b in placed], injected
 
 
 def g_starfinders(sc, T, R, grng):
@@ -751,10 +771,10 @@ def g_starfinders(sc, T, R, grng):
               exclude_border=grng.random() < 0.6, sharplo=-5.0, sharphi=5.0, roundlo=-5.0, roundhi=5.0)
     f = DAOStarFinder(**kw)
     k = f.kernel
-    d, srcs = inject_band_stars(sc['data'], sc['srcs'], grng, k.xradius, k.yradius, k.xsigma, k.ysigma, math.radians(kw['theta']))
+    d, srcs, inj = inject_band_stars(sc['data'], sc['srcs'], grng, k.xradius, k.yradius, k.xsigma, k.ysigma, math.radians(kw['theta']))
     D = T.img(d, 0.0)
     compare_finder(R, 'DAOStarFinder', f(d, **mk), DAOStarFinder(**kw)(D, **mkT), T, ny, nx, (k.xradius, k.yradius),
-                   {'params': kw, 'kernel_radii_xy': (k.xradius, k.yradius), 'mask': use_mask}, srcs)
+                   {'params': kw, 'kernel_radii_xy': (k.xradius, k.yradius), 'mask': use_mask}, srcs, inj)
     # IRAFStarFinder (circular kernel; min_separation footprint)
     kw = dict(threshold=grng.uniform(3.0, 8.0), fwhm=grng.uniform(2.5, 4.0), sigma_radius=grng.choice([1.5, 2.0]),
               minsep_fwhm=grng.choice([1.5, 2.5]), exclude_border=grng.random() < 0.6,
@@ -762,10 +782,10 @@ def g_starfinders(sc, T, R, grng):
     f = IRAFStarFinder(**kw)
     k = f.kernel
     ms = int(math.ceil(f.min_separation))
-    d, srcs = inject_band_stars(sc['data'], sc['srcs'], grng, max(k.xradius, ms), max(k.yradius, ms), k.xsigma, k.ysigma, 0.0)
+    d, srcs, inj = inject_band_stars(sc['data'], sc['srcs'], grng, max(k.xradius, ms), max(k.yradius, ms), k.xsigma, k.ysigma, 0.0)
     D = T.img(d, 0.0)
     compare_finder(R, 'IRAFStarFinder', f(d, **mk), IRAFStarFinder(**kw)(D, **mkT), T, ny, nx,
-                   (max(k.xradius, ms), max(k.yradius, ms)), {'params': kw, 'mask': use_mask}, srcs)
+                   (max(k.xradius, ms), max(k.yradius, ms)), {'params': kw, 'mask': use_mask}, srcs, inj)
     # StarFinder with a non-square, elongated Gaussian kernel
     ky, kx = grng.choice([(5, 13), (13, 5), (7, 11), (11, 7), (7, 7)])
     yy, xx = np.mgrid[0:ky, 0:kx]
@@ -775,12 +795,12 @@ def g_starfinders(sc, T, R, grng):
               exclude_border=grng.random() < 0.6)
     ms = int(math.ceil(kw['min_separation']))
     mx, my = max(kx // 2, ms), max(ky // 2, ms)
-    d, srcs = inject_band_stars(sc['data'], sc['srcs'], grng, mx, my, sgx, sgy, 0.0)
+    d, srcs, inj = inject_band_stars(sc['data'], sc['srcs'], grng, mx, my, sgx, sgy, 0.0)
     D = T.img(d, 0.0)
     t0 = StarFinder(kernel=kern.copy(), **kw)(d.copy(), **mk)
     t1 = StarFinder(kernel=kern.copy(), **kw)(D.copy(), **mkT)
     compare_finder(R, 'StarFinder', t0, t1, T, ny, nx, (mx, my),
-                   {'params': kw, 'kernel_shape': (ky, kx), 'mask': use_mask}, srcs)
+                   {'params': kw, 'kernel_shape': (ky, kx), 'mask': use_mask}, srcs, inj)
 
 
 # ======================================================================================
